@@ -1438,7 +1438,7 @@ def p_C15(ctx):
             c.update({"fac": fac, "kexp": [0, 1], "area": [1, 1], "lm": False, "runs": runs})
             yield c
     def select(cs):
-        # quick tier: one mix in 29, but one in 12 of the mixes that have a flagged dimension (idle DHW electricity line,
+        # quick tier: one mix in 58, but one in 24 of the mixes that have a flagged dimension (idle DHW electricity line,
         # tagged heat pump of another service, two-fuel cogenerator, second biomass boiler, other demands declared first)
         k = r = 0
         for c in cs:
@@ -1455,11 +1455,11 @@ def p_C15(ctx):
                     yield c
             elif rare:
                 r += 1
-                if r % 12 == ctx.seed % 12:
+                if r % 24 == ctx.seed % 24:
                     yield c
             else:
                 k += 1
-                if k % 29 == ctx.seed % 29:
+                if k % 58 == ctx.seed % 58:
                     yield c
     ctx.replay(cfg(select(vlib.mc_cases(st))), "mixes", "Trace_C15")
     ctx.samples += ctx.sample_from_trace(ctx.last_trace, 2, fields=("case", "tag", "comps"))
